@@ -89,12 +89,19 @@ impl DDesc {
                 VK::Z => VType::Z,
                 VK::X => VType::X,
             };
+            // cosmetic coordinates: all zero in a plain build, arbitrary (negative, repeated, not
+            // in creation order, boundaries not at the ends) in a scrambled one - nothing a
+            // diagram denotes may depend on them
+            let (qubit, row) = match rng.as_mut() {
+                Some(r) => (r.range(-2, 5) as f64, r.range(-4, 9) as f64 / 2.0),
+                None => (0.0, 0.0),
+            };
             let v = g.add_vertex_with_data(VData {
                 ty,
                 phase: Phase::new(Rational64::new(dv.ph.0, dv.ph.1)),
                 vars: if dv.vars.is_empty() { Parity::new(Vec::<u32>::new(), false) } else { Parity::from(dv.vars.clone()) },
-                qubit: 0.0,
-                row: 0.0,
+                qubit,
+                row,
             });
             ids.push(v);
         }
